@@ -111,6 +111,18 @@ func (icm *ConfigMap) Load() (object.ObjMetadataSet, error) {
 // the object metadata in the wrapped ConfigMap. Actual storing
 // happens in "GetObject".
 func (icm *ConfigMap) Store(objMetas object.ObjMetadataSet, status []actuation.ObjectStatus) error {
+	// Reject identifiers whose key would not read back as the same
+	// identifier (e.g. names containing the field separator), instead of
+	// writing an inventory that can never be loaded again.
+	for _, objMeta := range objMetas {
+		parsed, err := object.ParseObjMetadata(objMeta.String())
+		if err != nil {
+			return fmt.Errorf("object metadata cannot be stored in the inventory: %q: %w", objMeta, err)
+		}
+		if parsed != objMeta {
+			return fmt.Errorf("object metadata cannot be stored in the inventory: %q reads back as %q", objMeta, parsed)
+		}
+	}
 	icm.objMetas = objMetas
 	icm.objStatus = status
 	return nil
